@@ -18,7 +18,9 @@ translates the listed functions of $EMD_REPO/<src_relpath> into $EMD_COQ_DIR/gen
 The translation is STRUCTURAL, statement by statement and expression by expression. Normalisations (all of them):
   N1  docstrings are dropped; decorators are ignored; comments do not exist in the ast.
   N2  an expression statement `logger.<level>(...)` becomes SSkip (logging is C20's business); an `if` whose
-      branches only log therefore keeps its test and has SSkip branches.
+      branches only log therefore keeps its test and has SSkip branches. Dropping a logger call also drops the
+      EVALUATION OF ITS ARGUMENTS, which in the real code can raise (e.g. `names[idx]` inside a
+      `logger.debug(msg.format(...))`): such an exception is not in the translated program.
   N3  `x op= e` becomes `x = x op e` (+ - * // structurally, any other operator through the opaque form N7).
   N4  `a or b or c` nests to the right, as Python evaluates it; same for `and`.
   N5  `e is None` -> EIsNone e, `e is not None` -> ENot (EIsNone e).
@@ -59,6 +61,20 @@ The translation is STRUCTURAL, statement by statement and expression by expressi
   N15 a name read in value position that is not a name of the frame (a global, a builtin, another function of
       the module: `list`, `get_next_imf` handed to functools.partial, a module-level constant) is the
       zero-argument primitive of that name, ECall "list" [] [], not a variable.
+OPT-IN NORMALISATIONS (keyword options of generate(), all off by default so that existing generated files do not move):
+  N16 call_frame_callee=True: a call whose callee is a plain name that is a NAME OF THE FRAME (a local such as
+      `pchip = interp.pchip(locs, pks)` ... `env = pchip(t)`, a callback parameter, a closure variable) is not the
+      primitive of that name (N6, which would lose the dependency on the variable) but the opaque form N7 of the
+      whole call, with the callee variable among its free-variable arguments:
+      `pchip(t)` -> ECall "pchip(t)" [EVar "pchip"; EVar "t"] [].  Calls of globals / builtins / module functions keep N6.
+  N17 mutators_as_stores=True (or an iterable of method names; True = extend, append, update, sort): an expression
+      statement `v.extend(E)` / `v.append(E)` / `v.update(E)` / `v.sort()` whose receiver v is a plain name of the
+      frame is a store to v like N11: SAssign "v" (ECall "v.extend(E)" [free variables of the text] []) - the
+      primitive returns the value of v AFTER the mutation (as a bare expression statement the mutation would be
+      lost, primitives being pure). Aliasing is not modelled.
+  N18 arith_div_pow=True: `a / b` -> ECall "/" [a; b] [] and `a ** b` -> ECall "**" [a; b] [] with structurally
+      translated operands (dispatch by operator name, like + - * // on non-ints) instead of one opaque N7 text;
+      `x /= e`, `x **= e` follow through N3.
 FAIL CLOSED: any other statement or expression shape inside the translated regions (break, while/for/try-else,
 `except ... as e`, `del name`, assert, yield, await, walrus, global/nonlocal, import, nested def/class,
 multiple or nested-tuple assignment targets, a logger call in value position, non-ASCII text, ...) is a
@@ -112,6 +128,8 @@ def unknown(node, what):
 
 CUR = ['?']
 FRAME = [None]          # the names of the frame being translated (None: every non-module name counts)
+DEFAULT_MUTATORS = ('extend', 'append', 'update', 'sort')
+OPTS = {'call_frame_callee': False, 'mutators': frozenset(), 'arith_div_pow': False}      # N16, N17, N18 (opt-in)
 
 
 def cstr(s, node=None):
@@ -280,12 +298,17 @@ def expr(n):
         return opaque(n)                                                       # - + ~
     if isinstance(n, ast.BinOp):
         if type(n.op) not in AR:
+            if OPTS['arith_div_pow'] and isinstance(n.op, (ast.Div, ast.Pow)):                               # N18
+                return 'ECall %s %s []' % (cstr(OPSYM[type(n.op)]), clist([expr(n.left), expr(n.right)]))
             return opaque(n)
         return 'EArith %s (%s) (%s)' % (AR[type(n.op)], expr(n.left), expr(n.right))
     if isinstance(n, ast.Call):
         d = dotted(n.func)
         if d is not None and d[0] == LOGGER:
             unknown(n, 'logger call in value position')
+        if d is not None and len(d) == 1 and OPTS['call_frame_callee'] and FRAME[0] is not None \
+                and d[0] in FRAME[0] and d[0] not in MODULES:
+            return opaque(n)                                                                                # N16
         if d is not None and (len(d) == 1 or d[0] in MODULES):
             if any(isinstance(a, ast.Starred) for a in n.args):
                 return opaque(n)
@@ -337,6 +360,11 @@ def stmt(n, ind):
         return pad + 'SSkip'
     if isinstance(n, ast.Expr):
         if isinstance(n.value, ast.Call):
+            f = n.value.func
+            if OPTS['mutators'] and isinstance(f, ast.Attribute) and f.attr in OPTS['mutators'] \
+                    and isinstance(f.value, ast.Name) and f.value.id not in MODULES and f.value.id != LOGGER \
+                    and (FRAME[0] is None or f.value.id in FRAME[0]):
+                return pad + 'SAssign %s (%s)' % (cstr(f.value.id), opaque(n.value))                        # N17
             return pad + 'SExpr (%s)' % expr(n.value)
         unknown(n, 'expression statement')
     if isinstance(n, ast.Assign):
@@ -357,7 +385,7 @@ def stmt(n, ind):
             unknown(n, 'augmented assignment')
         if type(n.op) not in AR:
             rd = ast.copy_location(ast.Name(id=n.target.id, ctx=ast.Load()), n.target)
-            return pad + 'SAssign %s (%s)' % (cstr(n.target.id), opaque(
+            return pad + 'SAssign %s (%s)' % (cstr(n.target.id), expr(
                 ast.copy_location(ast.BinOp(left=rd, op=n.op, right=n.value), n)))
         return pad + 'SAssign %s (EArith %s (EVar %s) (%s))' % (
             cstr(n.target.id), AR[type(n.op)], cstr(n.target.id), expr(n.value))
@@ -539,10 +567,15 @@ LEGACY_HEADER = [
     '   displays -> ONE opaque ECall named by their literal source text with their free variables). *)']
 
 
-def translate(src_path, funcs, header, modules=frozenset({'np'}), logger='logger', strict_params=False):
+def translate(src_path, funcs, header, modules=frozenset({'np'}), logger='logger', strict_params=False,
+              call_frame_callee=False, mutators_as_stores=False, arith_div_pow=False):
     """The text of the generated file; raises Unknown (fail closed)."""
     global MODULES, LOGGER
     MODULES, LOGGER = set(modules), logger
+    if mutators_as_stores is True:
+        mutators_as_stores = DEFAULT_MUTATORS
+    OPTS.update(call_frame_callee=bool(call_frame_callee), arith_div_pow=bool(arith_div_pow),
+                mutators=frozenset(mutators_as_stores or ()))
     try:
         src = open(src_path).read()
         tree = ast.parse(src)
@@ -605,7 +638,8 @@ def poison(msg):
 
 
 def generate(src_relpath, funcs, out_name, header_note, modules=frozenset({'np'}), logger='logger',
-             on_fail='poison', out_path=None, header=None, strict_params=False):
+             on_fail='poison', out_path=None, header=None, strict_params=False,
+             call_frame_callee=False, mutators_as_stores=False, arith_div_pow=False):
     """Translate functions of $EMD_REPO/<src_relpath> into $EMD_COQ_DIR/gen/<out_name>.
 
     funcs        [(path, mode)] or [(path, mode, coq_name)]: path = 'f' | 'Class.method' | 'outer.inner' (nested
@@ -616,18 +650,25 @@ def generate(src_relpath, funcs, out_name, header_note, modules=frozenset({'np'}
     modules      module aliases of the source file (N6, N7); logger = the name whose .info/.debug/... calls are N2.
     on_fail      'poison' (default): on failure write a file that cannot compile and return False;
                  'exit': message + exit code 2, file untouched (only for drivers registered in common.py).
+    call_frame_callee, mutators_as_stores, arith_div_pow   the opt-in normalisations N16, N17, N18 of the module
+                 docstring (default off; mutators_as_stores may also be an iterable of method names).
     Returns True when the translation succeeded. The file is rewritten only when its content changes."""
     tag = os.path.splitext(os.path.basename(sys.argv[0] or 'gen_skeleton'))[0]
     path = out_path or os.path.join(COQ_DIR, 'gen', out_name)
     src_path = os.path.join(REPO, src_relpath)
     if header is None:
         notes = [header_note] if isinstance(header_note, str) else list(header_note)
+        on = [t for t, v in (('N16 call_frame_callee', call_frame_callee), ('N17 mutators_as_stores', mutators_as_stores),
+                             ('N18 arith_div_pow', arith_div_pow)) if v]
+        if on:
+            notes.append('opt-in normalisations enabled: ' + ', '.join(on))
         header = ['(* GENERATED by harness/%s.py from %s - do not edit; rewritten on every run.' % (tag, src_relpath),
                   '   Structural translation into the mini language of lib/PyLoop.v by the library harness/gen_skeleton.py',
                   '   (normalisations N1-N15 are listed in its header).'] + ['   ' + ln for ln in notes]
         header[-1] += ' *)'
     try:
-        text = translate(src_path, funcs, header, modules, logger, strict_params)
+        text = translate(src_path, funcs, header, modules, logger, strict_params,
+                         call_frame_callee, mutators_as_stores, arith_div_pow)
         htext = '\n'.join(header)
         if htext.count('(*') != 1 or htext.count('*)') != 1 or not htext.startswith('(*') or not htext.endswith('*)') \
                 or '"' in htext:
